@@ -1571,6 +1571,42 @@ fn main() {
             }
             println!("RESULT enum:random-filters seed={seed}: {count} random filter trees come back from the library's text and from an independent spelling with random spacing");
         }
+        // ---- C06: timestamps in ~90 zones (whole- and fractional-hour offsets, both hemispheres) at instants in winter, in summer and around the
+        //      European and American clock changes keep their instant, offset and zone name through Zinc and Hayson
+        "enum:zones" => {
+            use libhaystack::encoding::zinc::encode::ToZinc;
+            use libhaystack::val::DateTime;
+            let zones = ["UTC", "London", "Paris", "Berlin", "Madrid", "Rome", "Lisbon", "Dublin", "Athens", "Helsinki", "Moscow", "Istanbul", "Kiev", "Warsaw", "Zurich", "Oslo", "Stockholm",
+                "New_York", "Chicago", "Denver", "Los_Angeles", "Phoenix", "Anchorage", "Honolulu", "Toronto", "Vancouver", "Halifax", "St_Johns", "Mexico_City", "Bogota", "Lima", "Santiago",
+                "Sao_Paulo", "Buenos_Aires", "Caracas", "Havana", "Cairo", "Johannesburg", "Lagos", "Nairobi", "Casablanca", "Dubai", "Tehran", "Kabul", "Karachi", "Kolkata", "Kathmandu", "Dhaka",
+                "Yangon", "Bangkok", "Jakarta", "Singapore", "Hong_Kong", "Shanghai", "Taipei", "Manila", "Seoul", "Tokyo", "Perth", "Eucla", "Darwin", "Adelaide", "Brisbane", "Sydney", "Melbourne",
+                "Hobart", "Lord_Howe", "Auckland", "Chatham", "Fiji", "Tongatapu", "Apia", "Kiritimati", "Marquesas", "Tahiti", "Noumea", "Guam", "Reykjavik", "Azores", "Cape_Verde", "Jerusalem",
+                "Baghdad", "Riyadh", "Tashkent", "Almaty", "Colombo", "Ulaanbaatar", "Vladivostok", "Kamchatka", "GMT+5", "GMT-10"];
+            let instants = ["2021-01-15T12:00:00Z", "2021-07-15T12:00:00Z", "2021-03-28T00:59:59Z", "2021-03-28T01:00:00Z", "2021-10-31T00:30:00Z", "2021-10-31T01:30:00Z", "2021-03-14T06:59:59Z",
+                "2021-03-14T10:00:00Z", "2021-11-07T05:30:00Z", "2021-11-07T09:30:00Z", "1999-12-31T23:59:59.999Z", "2038-01-19T03:14:08Z"];
+            let (mut n, mut skipped) = (0, vec![]);
+            for z in zones {
+                let mut ok_zone = false;
+                for t in instants {
+                    let dt = match if z == "UTC" { DateTime::parse_from_rfc3339(t) } else { DateTime::parse_from_rfc3339_with_timezone(t, z) } { Ok(d) => d, Err(_) => continue };
+                    ok_zone = true;
+                    let v = Value::make_datetime(dt.clone());
+                    let want = (dt.timestamp_nanos_opt(), dt.offset().to_string(), dt.timezone_short_name());
+                    let zinc = v.to_zinc_string().unwrap();
+                    let json = serde_json::to_string(&v).unwrap();
+                    for (what, back) in [("Zinc", from_str(&zinc).map_err(|e| e.to_string())), ("Hayson", serde_json::from_str::<Value>(&json).map_err(|e| e.to_string()))] {
+                        n += 1;
+                        let got = match &back { Ok(Value::DateTime(b)) => Some((b.timestamp_nanos_opt(), b.offset().to_string(), b.timezone_short_name())), _ => None };
+                        if got.as_ref() != Some(&want) {
+                            println!("RESULT enum:zones zone={z} instant={t}: {what} text {:?} comes back as {back:?} = {got:?}, expected {want:?}", if what == "Zinc" { &zinc } else { &json });
+                            std::process::exit(3);
+                        }
+                    }
+                }
+                if !ok_zone { skipped.push(z); }
+            }
+            println!("RESULT enum:zones {n} round trips over {} zones x {} instants keep instant, offset and zone name; names not accepted by the constructor and skipped: {skipped:?}", zones.len() - skipped.len(), instants.len());
+        }
         // ---- C09 enumerator (evaluation half): `id *== @ref` over resolvers whose refs form chains and cycles of several shapes must
         //      terminate with the right answer; a run that does not come back is reported as a hang by the caller's watchdog
         "enum:wildcard-cycles" => {
